@@ -69,3 +69,7 @@ for v in ck.violations:
                     bad = True
             prev = c
         v['replayed'] = bad
+    elif v['obligation'] == 'T0_vote_stable_within_term':
+        rep = Replay.call({'op': 'raft_vote_stability', 'pre': w['pre'], 'handler': w['handler'], 'msg': w['msg'], 'peers': ['p1', 'p2']})
+        v['native'] = rep
+        v['replayed'] = rep.get('violates')
